@@ -175,6 +175,16 @@ def make_rundir_turtlemd(spec):
     cfg["simulation"]["tis_set"]["allowmaxlength"] = spec["allowmaxlength"]
     cfg["simulation"]["tis_set"]["n_jumps"] = spec["n_jumps"]
     cfg["simulation"]["tis_set"]["maxlength"] = spec["maxlength"]
+    if spec.get("cap") is not None:
+        cfg["simulation"]["tis_set"]["interface_cap"] = spec["cap"]
+    if spec.get("two_engines"):
+        # multi-engine layout (examples/gromacs/H2_multi_engine): the plus ensembles list two engines, moves use the first
+        import copy
+
+        cfg["engine2"] = copy.deepcopy(cfg["engine"])
+        cfg["engine2"]["temperature"] = 0.25
+        cfg["engine2"]["integrator"]["settings"]["beta"] = 4.0
+        cfg["simulation"]["ensemble_engines"] = [["engine"], ["engine"]] + [["engine", "engine2"] for _ in range(6)]
     cfg["orderparameter"] = {"class": "PositionXRounded", "module": "orderp_round.py", "index": [0, 0], "periodic": False}
     cfg["output"].update({"screen": 0, "pattern": False, "delete_old": spec["delete_old"], "delete_old_all": spec["delete_old_all"]})
     with open(os.path.join(d, "orderp_round.py"), "w") as fh:
@@ -607,18 +617,21 @@ class Observer:
 
             with open("restart.toml", "rb") as fh:
                 cfg = tomli.load(fh)
-            for pn in cfg["current"]["active"]:
+            # ... and so is the input path of every job the restart file lists as in flight (it is re-issued from disk)
+            refs = [("active", pn) for pn in cfg["current"]["active"]]
+            refs += [("in-flight-job", pn) for entry in cfg["current"].get("locked", []) for pn in entry[1]]
+            for kind, pn in refs:
                 pdir = os.path.join(load_dir, str(pn))
                 tt = os.path.join(pdir, "traj.txt")
                 if not os.path.isfile(tt) or not os.path.isfile(os.path.join(pdir, "order.txt")):
-                    self.bad("C14:active-path-of-restart-file-lost-its-tables", f"path {pn}")
+                    self.bad(f"C14:{kind}-path-of-restart-file-lost-its-tables", f"path {pn}")
                     continue
                 for line in open(tt):
                     if line.startswith("#"):
                         continue
                     f = os.path.join(pdir, "accepted", line.split()[1])
                     if not os.path.isfile(f):
-                        self.bad("C14:active-path-of-restart-file-lost-a-frame-file", f"path {pn}: {f}")
+                        self.bad(f"C14:{kind}-path-of-restart-file-lost-a-frame-file", f"path {pn}: {f}")
                         break
         except FileNotFoundError:
             pass
